@@ -3,13 +3,14 @@ NEXT Next
 CONSTANTS
   N = 2
   K = 2
-  NCells = 1
+  NCells = 2
   MateChoices = {2}
   RejectChoices = {TRUE,FALSE}
   MaxPairChoices = {0,1}
-  Classes = {"A","W"}
+  Classes = {"A","N"}
+  PlainStrats = {1}
   PairLevelOnly = FALSE
-  Variant = "D21"
+  Variant = "D104"
 INVARIANT TypeOK
 INVARIANT Inv_C01_Once
 INVARIANT Inv_C01_AtMostOnce
